@@ -2,6 +2,7 @@ package lssim
 
 import (
 	"fmt"
+	"strings"
 )
 
 // C01: replicas converge to the per-key last-writer-wins winner.
@@ -107,6 +108,60 @@ func CheckConverged(f *Fleet, prop string) {
 			if !set[dbi][key][got] {
 				f.Violate(Violation{prop, "lww-winner", "invented-version",
 					fmt.Sprintf("dbi %s key %q: converged to %s which nobody ever wrote", dbi, key, got)})
+				return
+			}
+		}
+	}
+	// Shadow mode: versions are created by Lightning Stream when it captures
+	// application changes, so "every version ever stored" also contains what
+	// a faulty capture invents. Independent of that: a key some application
+	// put and no application ever deleted is live at the end (every winner
+	// of its versions is a put), with a value some application wrote.
+	if !ref.Native {
+		puts := map[string]map[string]bool{} // dbi/key -> values written
+		dels := map[string]bool{}
+		for _, tx := range f.AppHistory {
+			for _, op := range tx.Ops {
+				id := op.DBI + "/" + string(op.Key)
+				if op.Kind == OpDel {
+					dels[id] = true
+					continue
+				}
+				if puts[id] == nil {
+					puts[id] = map[string]bool{}
+				}
+				puts[id][string(op.Val)] = true
+			}
+		}
+		app := f.state[ref].AppDBIs()
+		for _, id := range sortedKeys(puts) {
+			if dels[id] || f.ShadowTaint[id] || f.Tainted[id] {
+				continue
+			}
+			raced := false
+			for _, n := range f.Nodes {
+				if f.RaceKeys[n.Name+"/"+id] {
+					raced = true
+				}
+			}
+			if raced {
+				continue // known finding (transaction id reuse), reported by C03/C09
+			}
+			i := strings.Index(id, "/")
+			dbi, key := id[:i], id[i+1:]
+			var val []byte
+			present := false
+			if d := app[dbi]; d != nil {
+				val, present = d.Map()[key]
+			}
+			if !present {
+				f.Violate(Violation{prop, "lww-winner", "undeleted-key-lost",
+					fmt.Sprintf("dbi %s key %q: applications put it and none ever deleted it, yet after convergence it is absent from the application's DBI (stored: %v)", dbi, key, refContent[dbi][key])})
+				return
+			}
+			if len(val) > 0 && !puts[id][string(val)] {
+				f.Violate(Violation{prop, "lww-winner", "invented-value",
+					fmt.Sprintf("dbi %s key %q: converged to value %q which no application wrote", dbi, key, val)})
 				return
 			}
 		}
